@@ -9,15 +9,11 @@
 (*                                     representable in the format;           *)
 (*                                     roundtrips: 1 iff Parse(EncMsg(m)) = m *)
 (*    <<"D", id, Classify(bytes), Reserialises(bytes)>>                      *)
-(* The state space is only a work list (root -> chunk -> case), so that the  *)
-(* cases are evaluated by TLC's worker threads in parallel.                  *)
+(* There is no behaviour specification (and no variable): TLC evaluates the  *)
+(* assumption, once per case, and stops.                                     *)
 EXTENDS CoapWire, Json, IOUtils
 
-CONSTANT ChunkSize
-
 Cases == JsonDeserialize(IOEnv.C01_CASES)
-N == Len(Cases)
-NChunks == (N + ChunkSize - 1) \div ChunkSize
 
 EvalEnc(c) ==
     LET m == << c[3], c[4], c[5], c[6], c[7], c[8] >>
@@ -29,13 +25,5 @@ EvalDec(c) == << "D", c[2], Classify(c[3]), Reserialises(c[3]) >>
 
 EvalCase(c) == IF c[1] = "enc" THEN EvalEnc(c) ELSE EvalDec(c)
 
-VARIABLES lvl, k
-
-Init == lvl = 0 /\ k = 0
-
-Next == \/ /\ lvl = 0 /\ lvl' = 1 /\ k' \in 1..NChunks
-        \/ /\ lvl = 1 /\ lvl' = 2
-           /\ k' \in ((k - 1) * ChunkSize + 1)..(IF k * ChunkSize < N THEN k * ChunkSize ELSE N)
-
-Report == lvl = 2 => PrintT(EvalCase(Cases[k]))
+ASSUME \A i \in 1..Len(Cases) : PrintT(EvalCase(Cases[i]))
 =============================================================================
